@@ -65,6 +65,18 @@ class World:
         self.pickles = {}
 
     def path(self, f):
+        # f2 and f3 are DIFFERENT files whose path strings coincide once `x/..` is collapsed textually:
+        #   f2 = root/m.py          f3 = root/link/../m.py  with  link -> root/real/sub,  i.e. root/real/m.py
+        # (a cache keyed by a normalised path string would confuse them; the OS does not)
+        if f == 'f2':
+            return os.path.join(self.root, 'm.py')
+        if f == 'f3':
+            real = os.path.join(self.root, 'real', 'sub')
+            link = os.path.join(self.root, 'link')
+            if not os.path.islink(link):
+                os.makedirs(real, exist_ok=True)
+                os.symlink(real, link)
+            return os.path.join(self.root, 'link', '..', 'm.py')
         return os.path.join(self.root, f + '.py')
 
     def cdir(self, c):
